@@ -14,6 +14,7 @@ package main
 
 import (
 	"fmt"
+	"strings"
 
 	ad "github.com/pbenner/autodiff"
 )
@@ -56,6 +57,7 @@ const (
 	idZ  = 10 // a variable whose value is 0 (Abs at 0)
 	idC  = 20 // the stale receiver
 	idT0 = 21 // stale temporaries
+	idK2 = 40 // the plain constant 2 (exponent of Pow)
 )
 
 func staleProg(kind, order, n int) *prog {
@@ -72,6 +74,8 @@ func staleProg(kind, order, n int) *prog {
 	for k := 0; k < 3; k++ {
 		put(idT0+k, staleSnap(kind, order, n, float64(k+1)*0.25))
 	}
+	p.regs[idK2] = ad.NewFloat64(2)
+	p.kinds[idK2] = KBare
 	return p
 }
 
@@ -111,6 +115,20 @@ func staleStream(emit func(Case, string)) {
 				{Op: "Add", C: idC, A: idC, B: 0},
 				{Op: "Mul", C: idC, A: idC, B: 1},
 			}
+			// round 7: exact stationary points on a stale receiver -- a chain-rule coefficient (v1, v2, v10, v01, v11,
+			// v20, v02) is exactly 0, the slot must still be WRITTEN (0 * g = 0 replaces the old content)
+			for _, op := range stationaryMon {
+				ins = append(ins, Instr{Op: op, C: idC, A: idZ})
+			}
+			ins = append(ins,
+				Instr{Op: "Neg", C: idC, A: 0}, Instr{Op: "Neg", C: idC, A: 0, Conc: true},
+				Instr{Op: "Mul", C: idC, A: idZ, B: idZ}, Instr{Op: "Mul", C: idC, A: idZ, B: idZ, Conc: true},
+				Instr{Op: "Mul", C: idC, A: 1, B: idZ}, Instr{Op: "Mul", C: idC, A: idZ, B: 1, Conc: true},
+				Instr{Op: "Div", C: idC, A: idZ, B: 1}, Instr{Op: "Add", C: idC, A: 0, B: 1}, Instr{Op: "Sub", C: idC, A: 0, B: 1, Conc: true},
+				Instr{Op: "Pow", C: idC, A: idZ, B: idK2}, Instr{Op: "Pow", C: idC, A: 0, B: idZ},
+				Instr{Op: "Vnorm", C: idC, Xs: []int{0, idZ, 1}}, Instr{Op: "Mnorm", C: idC, Xs: []int{1, idZ, 0}, Rows: 1, Cols: 3},
+				Instr{Op: "VdotV", C: idC, Xs: []int{0, idZ}, Ys: []int{1, idZ}},
+				Instr{Op: "LogAdd", C: idC, A: 0, B: 0, T: []int{idT0}}, Instr{Op: "Sigmoid", C: idC, A: idZ, T: []int{idT0}})
 			for _, in := range ins {
 				p := staleProg(kind, order, n)
 				tag := "stale:" + in.Op
@@ -183,7 +201,14 @@ func powStream(emit func(Case, string)) {
 // that held the jet of an earlier computation over the same variables; after
 // Reset / SetFloat64 every derivative getter is 0.
 
-var staleSites = []string{"SetVariable", "Reset", "SetFloat64", "SetFloat64;Mul", "Reset;Add", "Abs0", "Abs0(concrete)", "Vmean", "VdotV", "Vnorm", "Mtrace", "SmoothMax", "LogSmoothMax"}
+var staleSites = []string{"SetVariable", "Reset", "SetFloat64", "SetFloat64;Mul", "Reset;Add", "Abs0", "Abs0(concrete)", "Vmean", "VdotV", "Vnorm", "Mtrace", "SmoothMax", "LogSmoothMax",
+	// round 7: exact stationary points (a chain-rule coefficient is exactly 0) on a reused receiver
+	"Cos@0", "Cosh@0", "Sin@0", "Sinh@0", "Tan@0", "Tanh@0", "Erf@0", "Logistic@0", "Sigmoid@0", "Neg", "Neg(concrete)",
+	"Mul(z,z)", "Mul(z,z)(concrete)", "Mul(x,z)", "Mul(z,x)(concrete)", "Div(z,x)", "Add", "Sub(concrete)", "PowC2@0", "Pow(x,z)",
+	"Vnorm0", "Mnorm0", "VdotV0", "LogAdd(x,x)"}
+
+// monadic table operations with a coefficient that is exactly 0 at x = 0 (v1: Cos Cosh; v2: Sin Sinh Tan Tanh Erf Logistic)
+var stationaryMon = []string{"Cos", "Cosh", "Sin", "Sinh", "Tan", "Tanh", "Erf", "Logistic"}
 
 func staleRun(site string, kind, order, n int, dirty bool) (res adScalar, pk int) {
 	regs := map[int]adScalar{}
@@ -214,6 +239,7 @@ func staleRun(site string, kind, order, n int, dirty bool) (res adScalar, pk int
 		rev = append(rev, n-1-i)
 	}
 	var prog []Instr
+	conc := strings.HasSuffix(site, "(concrete)")
 	switch site {
 	case "SetVariable":
 		// re-activation of a scalar that holds the jet of an earlier computation over the same variables:
@@ -241,6 +267,37 @@ func staleRun(site string, kind, order, n int, dirty bool) (res adScalar, pk int
 		prog = []Instr{{Op: site, C: idC, Xs: xs, Par: 0.5, T: []int{idT0, idT0 + 1}}}
 	case "LogSmoothMax":
 		prog = []Instr{{Op: site, C: idC, Xs: xs, Par: 0.5, T: []int{idT0, idT0 + 1, idT0 + 2}}}
+	case "Cos@0", "Cosh@0", "Sin@0", "Sinh@0", "Tan@0", "Tanh@0", "Erf@0", "Logistic@0":
+		prog = []Instr{{Op: strings.TrimSuffix(site, "@0"), C: idC, A: idZ}}
+	case "Sigmoid@0":
+		prog = []Instr{{Op: "Sigmoid", C: idC, A: idZ, T: []int{idT0}}}
+	case "Neg", "Neg(concrete)":
+		prog = []Instr{{Op: "Neg", C: idC, A: 0, Conc: conc}}
+	case "Mul(z,z)", "Mul(z,z)(concrete)":
+		prog = []Instr{{Op: "Mul", C: idC, A: idZ, B: idZ, Conc: conc}}
+	case "Mul(x,z)":
+		prog = []Instr{{Op: "Mul", C: idC, A: 1, B: idZ}}
+	case "Mul(z,x)(concrete)":
+		prog = []Instr{{Op: "Mul", C: idC, A: idZ, B: 1, Conc: true}}
+	case "Div(z,x)":
+		prog = []Instr{{Op: "Div", C: idC, A: idZ, B: 1}}
+	case "Add", "Sub(concrete)":
+		prog = []Instr{{Op: strings.TrimSuffix(site, "(concrete)"), C: idC, A: 0, B: 1, Conc: conc}}
+	case "PowC2@0":
+		regs[idK2] = ad.ConstFloat64(2)
+		prog = []Instr{{Op: "Pow", C: idC, A: idZ, B: idK2}}
+	case "Pow(x,z)":
+		prog = []Instr{{Op: "Pow", C: idC, A: 0, B: idZ}}
+	case "Vnorm0":
+		prog = []Instr{{Op: "Vnorm", C: idC, Xs: []int{0, idZ, 1}}}
+	case "Mnorm0":
+		prog = []Instr{{Op: "Mnorm", C: idC, Xs: []int{1, idZ, 0}, Rows: 1, Cols: 3}}
+	case "VdotV0":
+		prog = []Instr{{Op: "VdotV", C: idC, Xs: []int{0, idZ}, Ys: []int{1, idZ}}}
+	case "LogAdd(x,x)":
+		prog = []Instr{{Op: "LogAdd", C: idC, A: 0, B: 0, T: []int{idT0}}}
+	default:
+		panic("staleRun: unknown site " + site)
 	}
 	for k := range prog {
 		if pk = execGo(regs, &prog[k]); pk != 0 {
